@@ -711,38 +711,48 @@ void DOMDocumentImpl::removeRange(DOMRangeImpl* range)
 */
 bool DOMDocumentImpl::isKidOK(const DOMNode *parent, const DOMNode *child)
 {
-      static int kidOK[14];
-
-      if (kidOK[DOMNode::ATTRIBUTE_NODE] == 0)
+      // The table is built exactly once, by the constructor of a function-local
+      // static object: its initialisation is thread safe (C++11 and later), and the
+      // table is read-only afterwards. A plain static array filled on first use
+      // raced when several threads made their first DOM insertion concurrently.
+      struct KidOKTable
       {
-          kidOK[DOMNode::DOCUMENT_NODE] =
-              1 << DOMNode::ELEMENT_NODE |
-              1 << DOMNode::PROCESSING_INSTRUCTION_NODE |
-              1 << DOMNode::COMMENT_NODE |
-              1 << DOMNode::DOCUMENT_TYPE_NODE;
+          int kidOK[14];
 
-          kidOK[DOMNode::DOCUMENT_FRAGMENT_NODE] =
-              kidOK[DOMNode::ENTITY_NODE] =
-              kidOK[DOMNode::ENTITY_REFERENCE_NODE] =
-              kidOK[DOMNode::ELEMENT_NODE] =
-              1 << DOMNode::ELEMENT_NODE |
-              1 << DOMNode::PROCESSING_INSTRUCTION_NODE |
-              1 << DOMNode::COMMENT_NODE |
-              1 << DOMNode::TEXT_NODE |
-              1 << DOMNode::CDATA_SECTION_NODE |
-              1 << DOMNode::ENTITY_REFERENCE_NODE;
+          KidOKTable() : kidOK()
+          {
+              kidOK[DOMNode::DOCUMENT_NODE] =
+                  1 << DOMNode::ELEMENT_NODE |
+                  1 << DOMNode::PROCESSING_INSTRUCTION_NODE |
+                  1 << DOMNode::COMMENT_NODE |
+                  1 << DOMNode::DOCUMENT_TYPE_NODE;
 
-          kidOK[DOMNode::ATTRIBUTE_NODE] =
-              1 << DOMNode::TEXT_NODE |
-              1 << DOMNode::ENTITY_REFERENCE_NODE;
+              kidOK[DOMNode::DOCUMENT_FRAGMENT_NODE] =
+                  kidOK[DOMNode::ENTITY_NODE] =
+                  kidOK[DOMNode::ENTITY_REFERENCE_NODE] =
+                  kidOK[DOMNode::ELEMENT_NODE] =
+                  1 << DOMNode::ELEMENT_NODE |
+                  1 << DOMNode::PROCESSING_INSTRUCTION_NODE |
+                  1 << DOMNode::COMMENT_NODE |
+                  1 << DOMNode::TEXT_NODE |
+                  1 << DOMNode::CDATA_SECTION_NODE |
+                  1 << DOMNode::ENTITY_REFERENCE_NODE;
 
-          kidOK[DOMNode::PROCESSING_INSTRUCTION_NODE] =
-              kidOK[DOMNode::COMMENT_NODE] =
-              kidOK[DOMNode::TEXT_NODE] =
-              kidOK[DOMNode::CDATA_SECTION_NODE] =
-              kidOK[DOMNode::NOTATION_NODE] =
-              0;
-      }
+              kidOK[DOMNode::ATTRIBUTE_NODE] =
+                  1 << DOMNode::TEXT_NODE |
+                  1 << DOMNode::ENTITY_REFERENCE_NODE;
+
+              kidOK[DOMNode::PROCESSING_INSTRUCTION_NODE] =
+                  kidOK[DOMNode::COMMENT_NODE] =
+                  kidOK[DOMNode::TEXT_NODE] =
+                  kidOK[DOMNode::CDATA_SECTION_NODE] =
+                  kidOK[DOMNode::NOTATION_NODE] =
+                  0;
+          }
+      };
+      static const KidOKTable kidOKTable;
+      const int* const kidOK = kidOKTable.kidOK;
+
       int p=parent->getNodeType();
       int ch = child->getNodeType();
       return ((kidOK[p] & 1<<ch) != 0) ||
